@@ -72,7 +72,7 @@ PATTERNS = [
     ("missing", r"failed to read package directory|imports missing package|No such file"),
     ("mismatch", r"declares package|package mismatch"),
     ("cycle", r"cycle"),
-    ("duplicate", r"multiple packages|already implemented|[Dd]uplicate"),
+    ("duplicate", r"multiple packages|already implemented|already defined|[Dd]uplicate"),
     ("orphan", r"orphan"),
     ("unresolved", r"not imported|[Uu]nresolved|not found|[Uu]nknown|Cannot find|does not exist|undefined"),
     ("noimpl", r"does not implement|[Nn]o impl|not implemented|No instance found"),
@@ -91,6 +91,75 @@ def classify_diags(diags):
         if not hit:
             out.add("other:" + d["msg"][:60])
     return out
+
+
+def local_rules(rep, root):
+    """CoherenceLocal.tla: files of one package directory declaring another package; two implementation blocks of one (trait, type)
+    pair inside one package (own or imported trait, one file or two)."""
+    r = run_tlc("CoherenceLocal", "CoherenceLocal.cfg", workers=2, xmx="2g", timeout=600)
+    if not tlc_ok(r, "CoherenceLocal"):
+        rep.violation(f"model:CoherenceLocal:{r.violated}", {"trace": r.trace[-1:]})
+    cfgs = r.json_prints("LOCALCFG")
+    if len(cfgs) != r.distinct or len(cfgs) < 40:
+        raise ToolError("CoherenceLocal: unexpected number of configurations")
+    reqs = []
+    for i, c in enumerate(cfgs):
+        d = os.path.join(root, f"local{i}")
+        pk = c["where"]                                  # the package whose directory is probed
+        tr = "Show" if c["trait"] == "same-package" else "TraitPkg::Show"
+        decl = lambda which: pk if c[which] == "own" else "Other"
+        files = {}
+        home = 2 if c["first"] == "other" else 1        # the file (by sort position) that holds the package's real content
+        body = {1: [], 2: []}
+        body[home].append("struct Item { v: int32 }")
+        body[home].append("fn make() -> Item { Item { v: 1 } }")
+        if c["trait"] == "same-package":
+            body[home].append("trait Show { fn show(Self) -> string; }")
+        for k, pos in enumerate(c["blocks"]):
+            body[pos].append(f"impl {tr} for Item {{ fn show(self: Item) -> string {{ \"block{k + 1}\" }} }}")
+        imp = "import TraitPkg\n" if c["trait"] == "imported-package" else ""
+        texts = {1: f"package {decl('first')}\n{imp if decl('first') == pk else ''}\n" + "\n".join(body[1]) + ("\nfn stray() -> int32 { 1 }\n" if c["first"] == "other" else "\n"),
+                 2: f"package {decl('last')}\n{imp if decl('last') == pk else ''}\n" + "\n".join(body[2]) + ("\nfn stray() -> int32 { 1 }\n" if c["last"] == "other" else "\nfn tail_fn() -> int32 { 2 }\n")}
+        call = (f"{('' if pk == 'Main' else 'Lib::')}{'Show' if c['trait'] == 'same-package' else ''}" if False else "")
+        shown = ""
+        if c["blocks"]:
+            trq = ("TraitPkg::Show" if c["trait"] == "imported-package" else ("Show" if pk == "Main" else "Lib::Show"))
+            mk = "make()" if pk == "Main" else "Lib::make()"
+            shown = f"    let _ = string_println({trq}::show({mk}));\n"
+        if pk == "Lib":
+            files["Lib/a_first.gom"] = texts[1]
+            files["Lib/z_last.gom"] = texts[2]
+            files["main.gom"] = "package Main\nimport Lib\n" + imp + "\nfn main() {\n    let _ = Lib::make();\n" + shown + "    ()\n}\n"
+        else:
+            files["a_first.gom"] = texts[1]
+            files["z_last.gom"] = texts[2]
+            files["main.gom"] = "package Main\n" + imp + "\nfn main() {\n    let _ = make();\n" + shown + "    ()\n}\n"
+        if c["trait"] == "imported-package":
+            files["TraitPkg/lib.gom"] = "package TraitPkg\n\ntrait Show { fn show(Self) -> string; }\n"
+        for rel, t in files.items():
+            os.makedirs(os.path.dirname(os.path.join(d, rel)), exist_ok=True)
+            open(os.path.join(d, rel), "w").write(t)
+        reqs.append({"id": i, "path": os.path.join(d, "main.gom")})
+    answers = gv_parallel("compile", reqs)
+    n = 0
+    for c, a, q in zip(cfgs, answers, reqs):
+        exp = set(c["viol"])
+        shape = f"{c['where']}:first={c['first']}:last={c['last']}:trait={c['trait']}:blocks={''.join(str(x) for x in c['blocks']) or 'none'}"
+        src = {rel: open(os.path.join(os.path.dirname(q["path"]), rel)).read() for rel in ("main.gom",)}
+        if a["verdict"] in ("panic", "timeout"):
+            rep.violation(f"crash:local:{a.get('at')}", {"config": c, "msg": a.get("msg")}, replay={"config": c})
+            continue
+        n += 1
+        if not exp:
+            if a["verdict"] != "ok":
+                rep.violation(f"rejected-legal-package:{shape}", {"config": c, "diags": [d_["msg"] for d_ in a.get("diags", [])][:4], "main": src}, replay={"config": c})
+        elif a["verdict"] == "ok":
+            rep.violation(f"accepted-illegal-package:{'+'.join(sorted(exp))}:{shape}", {"config": c, "main": src}, replay={"config": c})
+        else:
+            got = classify_diags(a.get("diags", []))
+            if not ({g for g in got if not g.startswith("other:")} & exp):
+                rep.violation(f"rejected-for-unlisted-reason:{'+'.join(sorted(exp))}:{shape}", {"config": c, "got": sorted(got)}, replay={"config": c})
+    return n
 
 
 def run(tier, rep):
@@ -165,6 +234,8 @@ def run(tier, rep):
                 rep.violation(f"rejected-for-unlisted-reason:{key}:got={'+'.join(sorted(got))[:80]}", {"config": cfg, "diags": [d["msg"] for d in a.get("diags", [])][:4]}, replay={"config": cfg})
                 continue
             agree += 1
+    local_checked = local_rules(rep, root)
+    rep.coverage["package_local_configurations"] = local_checked
     for c in cases[:2]:
         rep.sample({"config": c["config"], "main.gom": open(c["path"]).read()})
     rep.coverage.update({"states": r.distinct, "transitions": r.generated, "traces_validated_against_impl": len(cases), "configurations_in_model": len(configs),
